@@ -1,6 +1,6 @@
 (* C02 - no lint fails internally on any input the parser accepts.  Statements only
-   (proofs: Framework/FatalFacts.v, Kernels/Walkers.v). *)
-From ZL Require Import Base.Bytes Framework.Core Framework.LifecycleFacts Framework.FatalFacts Kernels.Walkers.
+   (proofs: Framework/FatalFacts.v, Kernels/Walkers.v, Kernels/BodiesFacts.v). *)
+From ZL Require Import Base.Bytes Framework.Core Framework.LifecycleFacts Framework.FatalFacts Kernels.Walkers Kernels.Bodies Kernels.BodiesFacts.
 Open Scope Z_scope.
 
 (* a fatal status is an explicit decision of the body, a configuration error, or a recovered panic *)
@@ -36,8 +36,51 @@ Proof. exact explicit_text_never_panics. Qed.
 Theorem c02_walker_unchecked_refuted : explicit_text_lint false [194%N] = -1.
 Proof. exact walk_unchecked_refuted. Qed.
 
+(* rule bodies and helpers that index byte strings by hand (Kernels/Bodies.v: every index explicit, out of range =
+   the outcome OOR).  The three GeneralizedTime lints never read out of range when each GeneralizedTime validity field
+   has at least five octets (the parser only accepts the 15- and 19-octet forms; the harness checks that guard on
+   spliced certificates), and they do on shorter values. *)
+Theorem c02_gentime_safe : forall d1 d2, time_ok d1 -> time_ok d2 ->
+  safe (gen_seconds d1 d2) /\ safe (gen_fraction d1 d2) /\ safe (gen_not_zulu d1 d2).
+Proof. exact gen_time_lints_safe. Qed.
+
+Theorem c02_gentime_guard_needed :
+  check_seconds [48%N] = OOR /\ check_fraction [48%N; 48%N; 48%N; 48%N] = OOR /\ check_not_zulu [] = OOR /\ check_seconds [] = OOR.
+Proof. exact check_seconds_short_refuted. Qed.
+
+(* the keyUsage encoding lints, the SCT-list lint, GetHost, GetAuthority and ParseBMPString never read out of range,
+   whatever the bytes *)
+Theorem c02_bodies_total : forall b : bytes,
+  safe (ku_incorrect_encoding b) /\ safe (ku_superfluous b) /\ safe (ku_incorrect_length b) /\ safe (sct_list b) /\
+  safe (get_host b) /\ (forall ok opq, safe (get_authority ok opq b)) /\ safe (parse_bmp b).
+Proof.
+  intro b. repeat split.
+  - exact (ku_incorrect_encoding_safe b).
+  - exact (ku_superfluous_safe b).
+  - exact (ku_incorrect_length_safe b).
+  - exact (sct_list_safe b).
+  - exact (get_host_safe b).
+  - intros ok opq. exact (get_authority_safe ok opq b).
+  - exact (parse_bmp_safe b).
+Qed.
+
+(* the GeneralizedTime lints answer NA, pass or error only *)
+Theorem c02_gentime_range : forall chk d1 d2 s, gen_time_lint chk d1 d2 = Val s -> s = 1 \/ s = 3 \/ s = 6.
+Proof. exact gen_time_lint_range. Qed.
+
 Print Assumptions c02_fatal_origin.
 Print Assumptions c02_framework.
 Print Assumptions c02_plain.
 Print Assumptions c02_walker_safe.
 Print Assumptions c02_walker_unchecked_refuted.
+Print Assumptions c02_gentime_safe.
+Print Assumptions c02_gentime_guard_needed.
+Print Assumptions c02_bodies_total.
+Print Assumptions c02_gentime_range.
+
+(* non-vacuity: a 15-octet Zulu GeneralizedTime meets the guard; the lints pass on it and report the 13-octet form *)
+Example c02_gentime_example :
+  time_ok (24, s2b "20240301000000Z") /\ gen_seconds (24, s2b "20240301000000Z") (23, s2b "240301000000Z") = Val 3 /\
+  gen_seconds (24, s2b "202403010000Z") (23, s2b "240301000000Z") = Val 6 /\
+  gen_not_zulu (24, s2b "20240301000000+0100") (23, s2b "240301000000Z") = Val 6.
+Proof. repeat split; try reflexivity. intros _. vm_compute. discriminate. Qed.
